@@ -731,9 +731,7 @@ class Interp:
         if isinstance(it, (list, tuple, range, dict, str, set, frozenset, RepoEnum)) or hasattr(it, '__next__') or isinstance(
             it, (enumerate, zip, map, filter, reversed, itertools.product, itertools.combinations)
         ) or hasattr(it, '__iter__'):
-            if isinstance(it, list):
-                return list(it)  # snapshot; templates do not grow their own iteration list
-            return it
+            return it   # lists are iterated live, as Python does (a loop that changes the list it walks skips or repeats elements)
         self.unsupported(mod, node, f'iteration over {type(it).__name__}')
 
     def assign(self, mod, target, value, env):
